@@ -111,16 +111,23 @@ theorem ArgValRel.of_eq_scalar {t : ParamTy} (ht : t.isScalar = true) (c : GoVal
 theorem sprint_repEq_false {a a' : GoVal} (h : RepEq false a a') : sprint a = sprint a' := by
   rw [← sprint_norm a, ← sprint_norm a', h]
 
+/-- printing in Go syntax (`fmt.Sprint(values.ResolveDrops(·))`) does not see the representation — drops nested
+    in containers included (`d = true`) -/
+theorem sprintR_repEq {d : Bool} {a a' : GoVal} (h : RepEq d a a') : sprintR a = sprintR a' := by
+  unfold sprintR
+  rw [← sprintR_norm d a, ← sprintR_norm d a', h]
+
 /-- a scalar parameter receives the same value from related inputs -/
 theorem convert_scalar_rel {t : ParamTy} (ht : t.isScalar = true) {a a' : GoVal} (h : URel false a a') :
     convert a t = convert a' t := by
   rcases repEq_false_cases h.2.2 with rfl | ⟨h1, h2⟩
   · rfl
   · have hs := sprint_repEq_false h.2.2
+    have hsR := sprintR_repEq h.2.2
     unfold convert
     rw [unw_toLiquid h.1, unw_toLiquid h.2.1]
     cases a <;> simp [rigidF] at h1 <;> cases a' <;> simp [rigidF] at h2 <;> cases t <;>
-      simp [ParamTy.isScalar] at ht <;> simp [hs]
+      simp [ParamTy.isScalar] at ht <;> simp [hs, hsR]
 
 theorem convert_anys_shape {a c : GoVal} (h : convert a .anys = .ok c) : ∃ ys, c = .slice .any ys := by
   unfold convert at h
@@ -455,7 +462,7 @@ theorem sprintNonNil_rel : ∀ {ys ys' : List GoVal}, normList false ys = normLi
   | _ :: _, [], h => by simp [normList] at h
   | y :: ys, y' :: ys', h => by
     simp only [normList, List.cons.injEq] at h
-    simp only [sprintNonNil, isNil_repEq_false h.1, sprint_repEq_false h.1, sprintNonNil_rel h.2]
+    simp only [sprintNonNil, isNil_repEq_false h.1, sprintR_repEq h.1, sprintNonNil_rel h.2]
 
 theorem join_respects (t : Bool) : ImplRespects t [.val .anys, .fn .str] (eager join) := by
   intro cs cs' h
